@@ -159,8 +159,14 @@ def random_config(rng, closed=True):
             ds = [rng.choice(fams[0])]
         ds = ds[:4]
         frag_descs[i] = ds
+    if not closed:
+        # one descriptor more whose complement exists with ANOTHER bond order only (>2 where every < has order 1): growth
+        # from it is a dead end, never a bond
+        d = rng.choice(rng.choice(fams))
+        if d[2] in (1, 2):
+            frag_descs[rng.randrange(nfrag)].append((d[0], d[1], 3 - d[2]))
     present = {norm(k + l + str(o)) for ds in frag_descs for (k, l, o) in ds}
-    for d in present:
+    for d in (present if closed else ()):
         if d[0] in '<>' and ({'<': '>', '>': '<'}[d[0]] + d[1:]) not in present:
             return None
         if d[0] == '$' and sum(1 for ds in frag_descs for (k, l, o) in ds if k == '$' and str(o) == d[-1]) < 2:
@@ -280,6 +286,9 @@ def random_config(rng, closed=True):
         feats.add('order2_descriptor')
     if any(k in '<>' for ds in frag_descs for (k, _, _) in ds):
         feats.add('directed_descriptors')
+    if not closed:
+        feats.add('descriptor_without_equal_order_partner')
+        cfg['unclosed'] = True
     cfg['features'] = sorted(feats)
     return cfg
 
